@@ -237,17 +237,222 @@ pub fn run_b(s: &mut Src, ctx: &mut Ctx) -> Verdict {
     Verdict::Pass
 }
 
+// ------------------------------------------------------------------ part B': deeper paths
+
+/// Part `frames-deep`: the same snapshot-stack oracle over paths of one, two and THREE segments (`set_nested` accepts
+/// any depth: `cfg.limits.max`), on roots that are objects nested two levels deep, scalars, or absent, with writes
+/// that replace a sub-object by a scalar (so that a later deeper write fails) and that re-create the nested object.
+/// Own generator and alphabet: the byte-encoded cases of part `frames` keep their meaning.
+#[derive(Clone, Debug, Hash, PartialEq)]
+enum DOp {
+    Begin,
+    Commit,
+    Rollback,
+    /// set(k, scalar)
+    Set(usize, i64),
+    /// set(k, {f: 0, g: {h: 0}})
+    SetObj(usize),
+    /// set_nested(path, scalar): path index into DPATHS
+    Nested(usize, i64),
+    Remove(usize),
+}
+const DKEYS: [&str; 2] = ["k1", "k2"];
+const DPATHS: [&str; 8] = ["k2.f", "k2.g.h", "k2.g", "k2", "k1.f", "k1.g.h", "k2.g.h.x", "k2.n.h"];
+
+fn nested_obj() -> V {
+    let mut g = BTreeMap::new();
+    g.insert("h".to_string(), V::Int(0));
+    let mut o = BTreeMap::new();
+    o.insert("f".to_string(), V::Int(0));
+    o.insert("g".to_string(), V::Obj(g));
+    V::Obj(o)
+}
+
+/// what `set_nested` is documented to do: every segment but the last must name an existing object
+fn model_set_nested(m: &mut Snap, path: &str, v: V) -> bool {
+    let parts: Vec<&str> = path.split('.').collect();
+    if parts.len() == 1 {
+        m.insert(parts[0].to_string(), v);
+        return true;
+    }
+    let mut cur: &mut V = match m.get_mut(parts[0]) {
+        Some(x) => x,
+        None => return false,
+    };
+    for seg in &parts[1..parts.len() - 1] {
+        cur = match cur {
+            V::Obj(o) => match o.get_mut(*seg) {
+                Some(x) => x,
+                None => return false,
+            },
+            _ => return false,
+        };
+    }
+    match cur {
+        V::Obj(o) => {
+            o.insert(parts[parts.len() - 1].to_string(), v);
+            true
+        }
+        _ => false,
+    }
+}
+
+fn gen_dops(s: &mut Src, exh: u32) -> Vec<DOp> {
+    let n = if exh > 0 { exh as usize } else { 2 + s.below(9) };
+    (0..n)
+        .map(|_| {
+            if exh > 0 {
+                // 3 frame ops + set k2 scalar + set k2 object + remove k2 + 5 nested paths = 11 letters
+                match s.below(11) {
+                    0 => DOp::Begin,
+                    1 => DOp::Commit,
+                    2 => DOp::Rollback,
+                    3 => DOp::Set(1, 1),
+                    4 => DOp::SetObj(1),
+                    5 => DOp::Remove(1),
+                    x => DOp::Nested(x - 6, 1),
+                }
+            } else {
+                match s.weighted(&[6, 2, 5, 2, 2, 8, 2]) {
+                    0 => DOp::Begin,
+                    1 => DOp::Commit,
+                    2 => DOp::Rollback,
+                    3 => DOp::Set(s.below(2), 1 + s.below(2) as i64),
+                    4 => DOp::SetObj(s.below(2)),
+                    5 => {
+                        // mostly the paths that can succeed
+                        let p = if s.chance(3, 4) { [1usize, 0, 1, 2, 1, 3][s.below(6)] } else { 4 + s.below(4) };
+                        DOp::Nested(p, 1 + s.below(2) as i64)
+                    }
+                    _ => DOp::Remove(s.below(2)),
+                }
+            }
+        })
+        .collect()
+}
+
+pub fn run_b_deep(s: &mut Src, ctx: &mut Ctx) -> Verdict {
+    let ops = gen_dops(s, ctx.exh);
+    if probe_only() {
+        return Verdict::Pass;
+    }
+    ctx.describe(|| {
+        format!(
+            "start: k1 = 0, k2 = {{f: 0, g: {{h: 0}}}}; ops: {}",
+            ops.iter()
+                .map(|o| match o {
+                    DOp::Nested(p, v) => format!("set_nested({}, {})", DPATHS[*p], v),
+                    DOp::Set(k, v) => format!("set({}, {})", DKEYS[*k], v),
+                    DOp::SetObj(k) => format!("set({}, {{f: 0, g: {{h: 0}}}})", DKEYS[*k]),
+                    DOp::Remove(k) => format!("remove({})", DKEYS[*k]),
+                    x => format!("{:?}", x).to_lowercase(),
+                })
+                .collect::<Vec<_>>()
+                .join("; ")
+        )
+    });
+    let facts = Facts::new();
+    facts.set("k1", Value::Integer(0));
+    facts.set("k2", nested_obj().to_engine());
+    let mut model: Snap = snap_of(&facts);
+    let mut stack: Vec<Snap> = Vec::new();
+    let mut deep_write_in_frame = false;
+    let mut deep_write_then_rollback = false;
+    let mut failed_nested_in_frame = false;
+    for (i, op) in ops.iter().enumerate() {
+        match op {
+            DOp::Begin => {
+                facts.begin_undo_frame();
+                stack.push(model.clone());
+            }
+            DOp::Commit => {
+                facts.commit_undo_frame();
+                stack.pop();
+                if stack.is_empty() {
+                    deep_write_in_frame = false;
+                }
+            }
+            DOp::Rollback => {
+                facts.rollback_undo_frame();
+                if let Some(sn) = stack.pop() {
+                    model = sn;
+                    if deep_write_in_frame {
+                        deep_write_then_rollback = true;
+                    }
+                }
+                if stack.is_empty() {
+                    deep_write_in_frame = false;
+                }
+            }
+            DOp::Set(k, v) => {
+                facts.set(DKEYS[*k], Value::Integer(*v));
+                model.insert(DKEYS[*k].to_string(), V::Int(*v));
+            }
+            DOp::SetObj(k) => {
+                facts.set(DKEYS[*k], nested_obj().to_engine());
+                model.insert(DKEYS[*k].to_string(), nested_obj());
+            }
+            DOp::Nested(p, v) => {
+                let path = DPATHS[*p];
+                let r = facts.set_nested(path, Value::Integer(*v));
+                let ok = model_set_nested(&mut model, path, V::Int(*v));
+                if r.is_ok() != ok {
+                    return Verdict::fail("set-nested-result", format!("op {}: set_nested({}) returned Ok={} but every segment before the last {} an existing object", i, path, r.is_ok(), if ok { "names" } else { "does not name" }));
+                }
+                if !stack.is_empty() {
+                    if ok && path.matches('.').count() >= 2 {
+                        deep_write_in_frame = true;
+                    }
+                    if !ok {
+                        failed_nested_in_frame = true;
+                    }
+                }
+            }
+            DOp::Remove(k) => {
+                facts.remove(DKEYS[*k]);
+                model.remove(DKEYS[*k]);
+            }
+        }
+        let got = snap_of(&facts);
+        if got != model {
+            let kind = match op {
+                DOp::Rollback => "after-rollback",
+                DOp::Commit => "after-commit",
+                DOp::Begin => "after-begin",
+                _ => "after-write",
+            };
+            return Verdict::fail(format!("undo-frames:{}:deep-paths", kind), format!("op {} {:?}: facts {:?} but the snapshot-stack model says {:?}", i, op, got, model));
+        }
+        if facts.verif_undo_depth() != stack.len() {
+            return Verdict::fail("undo-frames:depth", format!("op {}: {} frames open but the model has {}", i, facts.verif_undo_depth(), stack.len()));
+        }
+    }
+    if deep_write_then_rollback {
+        ctx.label("three-segment-write-inside-a-frame-that-is-rolled-back");
+    }
+    if failed_nested_in_frame {
+        ctx.label("failed-set_nested-inside-a-frame");
+    }
+    if deep_write_then_rollback || (failed_nested_in_frame && ops.iter().any(|o| matches!(o, DOp::Rollback))) {
+        ctx.nontrivial(hash_of(&ops));
+    }
+    Verdict::Pass
+}
+
 pub fn property() -> Property {
     Property {
         id: "C10",
         level: "exploration",
-        rule: "part queries: the C09 generator restricted to non-monotone Horn KBs (wrong-value conclusions, side assignments, dead ends, cycles) x stores x goals x {DFS,BFS,Iterative} x max_depth 0..6 x max_solutions {1,3}; oracle: whenever the query is reported not provable, get_all_facts() after equals before (deep equality); leaked undo frames are reported as labels. Non-trivial: the query was not provable, some rule's condition was true on the initial facts (so the attempt executed something) and the KB has a wrong-value rule / dead end / And of two derivable sub-goals. Part frames: sequences over {begin, commit, rollback, set(k,v), set_nested(k.f,v), remove(k)} on 3 keys x 2 values starting from k1 scalar, k2 object, k3 absent: random of length 1..10 and exhaustive enumeration of all sequences of length 5 (quick) / 6 (thorough) over a 15-letter alphabet; oracle: stack of full deep snapshots (begin pushes, rollback pops and restores, commit pops and discards; both are no-ops on an empty stack), compared with get_all_facts() and snapshot() after every operation, plus the open-frame count (hook). Non-trivial: >= 2 nested frames with a write and a commit/rollback; distinct by operation sequence.",
+        rule: "part queries: the C09 generator restricted to non-monotone Horn KBs (wrong-value conclusions, side assignments, dead ends, cycles) x stores x goals x {DFS,BFS,Iterative} x max_depth 0..6 x max_solutions {1,3}; oracle: whenever the query is reported not provable, get_all_facts() after equals before (deep equality); leaked undo frames are reported as labels. Non-trivial: the query was not provable, some rule's condition was true on the initial facts (so the attempt executed something) and the KB has a wrong-value rule / dead end / And of two derivable sub-goals. Part frames: sequences over {begin, commit, rollback, set(k,v), set_nested(k.f,v), remove(k)} on 3 keys x 2 values starting from k1 scalar, k2 object, k3 absent: random of length 1..10 and exhaustive enumeration of all sequences of length 5 (quick) / 6 (thorough) over a 15-letter alphabet; oracle: stack of full deep snapshots (begin pushes, rollback pops and restores, commit pops and discards; both are no-ops on an empty stack), compared with get_all_facts() and snapshot() after every operation, plus the open-frame count (hook). Non-trivial: >= 2 nested frames with a write and a commit/rollback; distinct by operation sequence. Part frames-deep: the same oracle over set_nested paths of one, two and three segments (k2.g.h) on roots that are objects nested two levels deep, scalars or absent, with writes that replace a sub-object by a scalar (a later deeper write must fail and change nothing) and that re-create the object: random of length 1..10 and exhaustive over an 11-letter alphabet to length 5 / 6; non-trivial: a three-segment write inside a frame that is rolled back, or a failed set_nested inside a frame followed by a rollback.",
         assumptions: vec!["engine panics/errors during a query are counted, not judged".into()],
         parts: vec![
-            Part { name: "queries", run: run_a, quick: Budget::Random { cases: 300_000, bytes: 300 }, thorough: Budget::Random { cases: 2_000_000, bytes: 300 }, min_nontrivial_pct: 15 },
-            Part { name: "frames", run: run_b, quick: Budget::Random { cases: 3_000_000, bytes: 40 }, thorough: Budget::Random { cases: 15_000_000, bytes: 40 }, min_nontrivial_pct: 15 },
+            Part { name: "queries", run: run_a, quick: Budget::Random { cases: 300_000, bytes: 300 }, thorough: Budget::Random { cases: 10_000_000, bytes: 300 }, min_nontrivial_pct: 15 },
+            Part { name: "frames", run: run_b, quick: Budget::Random { cases: 3_000_000, bytes: 40 }, thorough: Budget::Random { cases: 40_000_000, bytes: 40 }, min_nontrivial_pct: 15 },
             Part { name: "frames-exh5", run: run_b, quick: Budget::Exhaustive { param: 5 }, thorough: Budget::Exhaustive { param: 5 }, min_nontrivial_pct: 0 },
             Part { name: "frames-exh6", run: run_b, quick: Budget::Skip, thorough: Budget::Exhaustive { param: 6 }, min_nontrivial_pct: 0 },
+            Part { name: "frames-deep", run: run_b_deep, quick: Budget::Random { cases: 2_000_000, bytes: 48 }, thorough: Budget::Random { cases: 30_000_000, bytes: 48 }, min_nontrivial_pct: 10 },
+            Part { name: "frames-deep-exh5", run: run_b_deep, quick: Budget::Exhaustive { param: 5 }, thorough: Budget::Exhaustive { param: 5 }, min_nontrivial_pct: 0 },
+            Part { name: "frames-deep-exh6", run: run_b_deep, quick: Budget::Skip, thorough: Budget::Exhaustive { param: 6 }, min_nontrivial_pct: 0 },
         ],
         watchdog: true,
         replay_reps: 3,
